@@ -27,7 +27,7 @@ class Prop(common.PropertyCheck):
             yield {'res': rng.choice([256, 1024, 1000, 4096, 65536, 262144, 777]), 'units': rng.choice(['raw', 'rfi', 'mef']),
                    'scale': rng.choice(['linear', 'log', 'logicle']), 'n': rng.choice([None, 1, 2, 17, 256, 'res']),
                    'chform': rng.choice(['name', 'pos', 'list', 'all', 'list_mixed']), 'over': rng.choice([None, None, 'T', 'M', 'W', 'W0']),
-                   'dt': rng.choice(['I', 'I', 'F']), 'seed': rng.randrange(1 << 30)}
+                   'dt': rng.choice(['I', 'I', 'F']), 'tinyneg': rng.random() < 0.4, 'seed': rng.randrange(1 << 30)}
         yield {'res': 1024, 'units': 'raw', 'scale': 'cubic', 'n': None, 'chform': 'name', 'over': None, 'seed': 1}
         # unsupported entries inside a per-channel scale list
         for badsc in (['linear', 'Log'], ['loglog', 'linear'], ['logicle', None], ['cubic', 'cubic'], ['linear', '']):
@@ -42,6 +42,9 @@ class Prop(common.PropertyCheck):
         spec['widths'] = [32, 32, 32]
         spec['pne'] = {'1': '0,0', '2': r.choice(['4,1', '4,0', '3,1', '4.5,1']), '3': '4,1'}
         d, _ = samples.load(spec, name='c19.fcs')
+        if case.get('tinyneg') and case.get('dt') == 'F':
+            # negative events only slightly below zero (well inside the linear region the default W would give)
+            d = FlowCal.transform.transform(d, None, lambda x: np.where(np.asarray(x) < 0, np.asarray(x) * 1e-5, np.asarray(x)))
         if case['units'] in ('rfi', 'mef'):
             d = FlowCal.transform.to_rfi(d)
         if case['units'] == 'mef':
@@ -205,4 +208,4 @@ class Prop(common.PropertyCheck):
         return None
 
     def nontrivial_key(self, case, impl):
-        return (case['res'], case['units'], case['scale'], str(case['n']), case['chform'], case['over'], case.get('dt'), str(case.get('badlist')))
+        return (case['res'], case['units'], case['scale'], str(case['n']), case['chform'], case['over'], case.get('dt'), case.get('tinyneg'), str(case.get('badlist')))
